@@ -44,7 +44,7 @@ def check (input impl : String) : Verdict :=
   let toks := words input
   let itoks := words impl
   match toks with
-  | "overlay" :: _client :: kvs =>
+  | "overlay" :: _client :: kvs | "setup" :: _client :: kvs =>   -- setup: the same question asked after a real Setup ran on the params
     match parseKVs kvs with
     | none => { model := "bad-input" }
     | some params =>
